@@ -22,6 +22,7 @@ import collections
 import collections.abc
 import dataclasses
 import enum
+import inspect
 import logging
 import re
 import traceback
@@ -1274,6 +1275,16 @@ class AgProtocol(utils.EventEmitter):
                 handler_name = f'_on_{command.code.lower()}'
 
             if handler := getattr(self, handler_name, None):
+                try:
+                    inspect.signature(handler).bind(*command.parameters)
+                except TypeError:
+                    logger.warning(
+                        'Unexpected parameters for %s: %s',
+                        handler_name,
+                        command.parameters,
+                    )
+                    self.send_error()
+                    continue
                 handler(*command.parameters)
             else:
                 logger.warning('Handler %s not found', handler_name)
@@ -1422,12 +1433,14 @@ class AgProtocol(utils.EventEmitter):
         if operation not in self.supported_ag_call_hold_operations:
             logger.error(f'Unsupported operation: {operation_code.decode()}')
             self.send_cme_error(CmeError.OPERATION_NOT_SUPPORTED)
+            return
 
         if call_index is not None and not any(
             call.index == call_index for call in self.calls
         ):
             logger.error(f'No matching call {call_index}')
             self.send_cme_error(CmeError.INVALID_INDEX)
+            return
 
         # Real three-way calls have more complicated situations, but this is not a popular issue - let users to handle the remaining :)
 
@@ -1493,6 +1506,7 @@ class AgProtocol(utils.EventEmitter):
                 f'display={display!r}, indicator={indicator!r}'
             )
             self.send_cme_error(CmeError.INVALID_INDEX)
+            return
 
         self.indicator_report_enabled = bool(int(indicator))
         self.send_ok()
